@@ -256,6 +256,16 @@ fn judge(argv: &[&str], stdin_k: usize, stdout: &Stdout, dir: &Path, canon: &Can
 		return None;
 	}
 	let lib = library_run(dir, &p.inputs, p.from, to, stdin_bytes(stdin_k));
+	if *stdout == Stdout::DevFull {
+		// every write fails with ENOSPC: a run that has anything to write cannot succeed
+		if !lib.bytes.is_empty() && (code != 1 || !stderr_ok) {
+			return Some(("write-failure-not-reported".into(), format!("stdout is /dev/full and the library produces {} bytes, but {}", lib.bytes.len(), o.brief())));
+		}
+		if lib.bytes.is_empty() && lib.failed_at.is_none() && code != 0 {
+			return Some(("all-inputs-translate-but-nonzero-exit".into(), o.brief()));
+		}
+		return None;
+	}
 	// a pty translates "\n" to "\r\n" on output
 	let got: Vec<u8> = if *stdout == Stdout::Pty { String::from_utf8_lossy(&o.stdout).replace("\r\n", "\n").into_bytes() } else { o.stdout.clone() };
 	match lib.failed_at {
@@ -321,6 +331,7 @@ pub fn run(ctx: &Ctx) -> CheckOutput {
 					jobs.push((argv.clone(), k, o.clone()));
 				}
 			}
+			jobs.push((argv.clone(), 0, Stdout::DevFull));
 		} else {
 			jobs.push((argv.clone(), 0, Stdout::Pipe));
 			jobs.push((argv, 1, Stdout::Pty));
@@ -368,11 +379,11 @@ pub fn run(ctx: &Ctx) -> CheckOutput {
 	});
 	let tally = Tally::merge_all(tallies);
 	let req = |k: &str| (k.to_string(), *tally.counters.get(k).unwrap_or(&0));
-	let required = vec![req("argv:invalid"), req("argv:help"), req("argv:valid"), req("stdout:Pipe"), req("stdout:File"), req("stdout:Pty")];
+	let required = vec![req("argv:invalid"), req("argv:help"), req("argv:valid"), req("stdout:Pipe"), req("stdout:File"), req("stdout:Pty"), req("stdout:DevFull")];
 	CheckOutput {
 		level: "exploration",
 		tally,
-		rule: format!("all argument vectors of length <= {} over a vocabulary of {} words (-f/-t with valid names and aliases in attached, detached and '=' form, missing values, invalid names, repeated options, unknown short/long options, -h --help -V --version, '--', '-', translatable / malformed / undetectable / unrepresentable / missing / directory paths) x stdin in {{translatable, malformed, empty}} x stdout in {{pipe, regular file, pseudo-terminal}}, run through the real binary (debug and release alternating); reference model: conventional option parsing per doc/xt.1 (invalid, asks_help) plus the library's own verdict and bytes for the input list. Oracle: exit 2 <=> invalid (and no help request) with empty stdout and an 'xt error' + usage message on stderr; exit 0 <=> help/version or every input translated, stdout exactly the help text or the library's bytes; otherwise exit 1, stderr begins 'xt error' and names the failing input, stdout is a byte prefix of the library's bytes; MessagePack never reaches a terminal; never a signal. Non-trivial = valid argv without help.", if thorough { "3 (+ length 4 behind two fixed heads)" } else { "2 (all combinations) and 3 (two stdin/stdout combinations)" }, vocab.len()),
+		rule: format!("all argument vectors of length <= {} over a vocabulary of {} words (-f/-t with valid names and aliases in attached, detached and '=' form, missing values, invalid names, repeated options, unknown short/long options, -h --help -V --version, '--', '-', translatable / malformed / undetectable / unrepresentable / missing / directory paths) x stdin in {{translatable, malformed, empty}} x stdout in {{pipe, regular file, pseudo-terminal}} (+ /dev/full for the short vectors: a run with output must then exit 1 with 'xt error'), run through the real binary (debug and release alternating); reference model: conventional option parsing per doc/xt.1 (invalid, asks_help) plus the library's own verdict and bytes for the input list. Oracle: exit 2 <=> invalid (and no help request) with empty stdout and an 'xt error' + usage message on stderr; exit 0 <=> help/version or every input translated, stdout exactly the help text or the library's bytes; otherwise exit 1, stderr begins 'xt error' and names the failing input, stdout is a byte prefix of the library's bytes; MessagePack never reaches a terminal; never a signal. Non-trivial = valid argv without help.", if thorough { "3 (+ length 4 behind two fixed heads)" } else { "2 (all combinations) and 3 (two stdin/stdout combinations)" }, vocab.len()),
 		exhaustive: true,
 		bounds: json!({"argv_len": if thorough { 4 } else { 3 }, "vocabulary": vocab.len()}),
 		assumptions: vec!["the reference model of option parsing is written from the statement and doc/xt.1; argv that is both invalid and help-requesting may exit 0 or 2".into()],
@@ -391,6 +402,7 @@ pub fn replay(case: &Value) -> Option<String> {
 	let k = ["translatable", "malformed", "empty"].iter().position(|s| *s == case["stdin"].as_str().unwrap()).unwrap_or(0);
 	let out = match case["stdout"].as_str().unwrap_or("Pipe") {
 		"File" => Stdout::File,
+		"DevFull" => Stdout::DevFull,
 		"Pty" => Stdout::Pty,
 		_ => Stdout::Pipe,
 	};
